@@ -493,6 +493,33 @@ class _Flip:
         return da.flip(a[0], s["axis"])
 
 
+@op("diagonal", "shape")
+class _Diagonal:
+    """np.diagonal / np.trace: layers that address source blocks by computed (NumPy-integer) coordinates."""
+
+    @staticmethod
+    def gen(D_, vals):
+        i = _pick(D_, vals, lambda v: v.ndim >= 2 and _numeric(v))
+        if i is None:
+            return None
+        n = vals[i].ndim
+        a1 = D_.int(0, n - 1)
+        a2 = D_.choice([k for k in range(n) if k != a1])
+        return {"op": "diagonal", "args": [i], "offset": D_.choice([0, 0, 1, -1, 2]), "axis1": a1, "axis2": a2, "trace": D_.chance(1, 3)}
+
+    @staticmethod
+    def np(s, a):
+        f = np.trace if s["trace"] else np.diagonal
+        return np.asarray(f(a[0], offset=s["offset"], axis1=s["axis1"], axis2=s["axis2"]))
+
+    @staticmethod
+    def da(s, a):
+        import dask_array as da
+
+        f = da.trace if s["trace"] else da.diagonal
+        return f(a[0], offset=s["offset"], axis1=s["axis1"], axis2=s["axis2"])
+
+
 @op("roll", "shape")
 class _Roll:
     @staticmethod
@@ -1037,6 +1064,13 @@ class _SWV:
         # windows at and around the leaves' block sizes: kernel-selection guards compare exactly these
         near = sorted({w for c in getattr(D_, "hints", ()) for w in (c - 1, c, c + 1, c + 2) if 1 <= w <= n})
         w = D_.choice(near) if near and D_.chance(1, 2) else D_.int(1, n)
+        layouts = getattr(D_, "leaf_layouts", ())
+        if i < len(layouts) and tuple(layouts[i][0]) == v.shape:
+            # directly over a source: a thin block (exactly window-1 long) right after a block of at least two
+            # windows is where the native kernels keep the block count but move the block boundaries
+            spots = [(k, c[j + 1] + 1) for k, c in enumerate(layouts[i][1]) for j in range(len(c) - 1) if c[j + 1] >= 1 and c[j] >= 2 * (c[j + 1] + 1)]
+            if spots and D_.chance(2, 3):
+                ax, w = D_.choice(spots)
         return {"op": "sliding_window_view", "args": [i], "w": w, "axis": ax - (v.ndim if D_.chance(1, 4) else 0)}
 
     @staticmethod
@@ -1336,7 +1370,13 @@ class _Setitem:
             return None
         v = vals[i]
         idx = gidx.gen_basic_index(D_, v.shape, allow_none=False, allow_ellipsis=True)
-        kind = D_.weighted([("scalar", 3), ("row", 2)])
+        if v.shape[-1] >= 3 and D_.chance(1, 3):
+            # a strided window along the last axis (where an array value is laid out element by element
+            # across block boundaries), any sign
+            step = D_.choice([2, 3, -2, -3, 2])
+            start = D_.int(0, 2) if step > 0 else D_.choice([None, -1, -2])
+            idx = (Ellipsis, slice(start, None, step)) if v.ndim == 1 or D_.bool() else (D_.int(0, v.shape[0] - 1), Ellipsis, slice(start, None, step))
+        kind = D_.weighted([("scalar", 3), ("row", 3)])
         s = {"op": "setitem", "args": [i], "index": gidx.enc(idx)}
         if kind == "scalar":
             s["value"] = D_.choice([-5, 0, 7])
@@ -1366,7 +1406,7 @@ class _Setitem:
 
 
 FAMILY_WEIGHTS = {
-    "setitem": 2,
+    "setitem": 5,
     "elemwise": 10,
     "elemwise2": 8,
     "shape": 12,
@@ -1397,9 +1437,10 @@ FOLLOWUPS = {
     "concatenate": _IDX,
     "stack": _IDX,
     "wsum": ["getitem"],
-    "sum": ["getitem", "broadcast_to"],
-    "mean": ["getitem"],
-    "max": ["getitem"],
+    "sum": ["getitem", "broadcast_to", "concatenate", "stack"],
+    "mean": ["getitem", "concatenate"],
+    "max": ["getitem", "concatenate"],
+    "min": ["getitem", "concatenate"],
     "broadcast_to": ["take", "getitem", "shuffle"],
     "reshape": ["getitem", "rechunk"],
     "rechunk": ["rechunk", "getitem", "sliding_window_view", "concatenate"],
@@ -1535,11 +1576,60 @@ def program_strategy(min_stmts=1, max_stmts=6, max_leaves=2, family_weights=None
                 leaves.append(gen_leaf(D_, shape=shape, dtype=D_.choice(dtypes) if dtypes else None, kinds=leaf_kinds))
             else:
                 leaves.append(gen_leaf(D_, max_rank=max_rank, max_len=max_len, dtype=D_.choice(dtypes) if dtypes else None, kinds=leaf_kinds))
+        template = []
+        ok_ops = {n for v in fams.values() for n in v}
+        if "sliding_window_view" in ok_ops and "sum" in ok_ops and leaf_kinds == ("numpy",) and max_rank >= 2 and not first_ops and D_.chance(1, 12):
+            # TEMPLATE (one program in twelve): a window reduction directly over a source whose chunking has a
+            # thin block (exactly window-1 long) right after a block of at least two windows - the layout under
+            # which the native window kernels keep the number of blocks but move their boundaries.  The rest
+            # of the program is drawn as usual on top of it.
+            thin = D_.choice([1, 1, 2])
+            w = thin + 1
+            ch = [D_.int(2 * w, 2 * w + 3), thin, D_.int(1, 4)]
+            if D_.bool():
+                ch = [D_.int(1, 3)] + ch
+            n = sum(ch)
+            if D_.chance(1, 2):
+                shape, chunks, ax = [n], [ch], 0
+            else:
+                m = D_.int(1, 4)
+                other = list(gchunks.axis_chunks(D_, m))
+                shape, chunks, ax = ([n, m], [ch, other], 0) if D_.bool() else ([m, n], [other, ch], 1)
+            leaves[0] = {"shape": shape, "dtype": D_.choice(["f8", "i8", "f8"]), "chunks": chunks, "offset": D_.choice([0, 1, -3]), "kind": "numpy"}
+            partner = None
+            if len(shape) == 2 and "concatenate" in ok_ops and D_.chance(1, 2):
+                # a second source that really IS chunked the way the window reduction advertises, to be joined
+                # with it along the other axis (the advertised layout is asked from the library: it only
+                # shapes an input)
+                try:
+                    import dask_array as _da
+
+                    adv = _da.sliding_window_view(_da.from_array(np.zeros(shape), chunks=tuple(tuple(c) for c in chunks)), w, axis=ax).sum(axis=-1).chunks
+                    k = D_.int(1, 3)
+                    pchunks = [list(c) for c in adv]
+                    pchunks[1 - ax] = [k]
+                    pshape = [sum(c) for c in pchunks]
+                    partner = {"shape": pshape, "dtype": leaves[0]["dtype"], "chunks": pchunks, "offset": 10, "kind": "numpy"}
+                except Exception:
+                    partner = None
+            if partner is not None:
+                leaves = [leaves[0], partner]
+                nleaves = 2
+            template = [
+                {"op": "sliding_window_view", "args": [0], "w": w, "axis": ax},
+                {"op": D_.choice(["sum", "sum", "max", "min", "mean"]), "args": [nleaves], "axis": -1, "keepdims": False},
+            ]
+            if partner is not None:
+                template.append({"op": "concatenate", "args": [1, nleaves + 1] if D_.chance(2, 3) else [nleaves + 1, 1], "axis": 1 - ax})
         vals = [leaf_data(l) for l in leaves]
         D_.hints = sorted({c for l in leaves for ax in l["chunks"] for c in ax if c > 0})
+        D_.leaf_layouts = [(l["shape"], l["chunks"]) for l in leaves]
         stmts = []
+        for s in template:
+            stmts.append(s)
+            vals.append(np_apply(s, vals))
         discarded = 0
-        target = D_.int(min_stmts, max_stmts)
+        target = max(D_.int(min_stmts, max_stmts), len(stmts))
         attempts = 0
         forced_at = D_.int(0, target - 1) if ensure_ops else None
         while len(stmts) < target and attempts < target * 4:
